@@ -80,24 +80,63 @@ func ruleAddressUpdate(c *Ctx, r *Report) {
 			continue
 		}
 		n++
-		if key != "(dtls.returnRoutabilityConn).HandleRecord" {
+		// the response handler, or a private helper of it
+		host := c.Fn("(dtls.returnRoutabilityConn).HandleRecord")
+		inUnit := false
+		if host != nil {
+			for _, u := range c.unitFuncs(host) {
+				if u == fn {
+					inUnit = true
+				}
+			}
+		}
+		if !inUnit {
 			r.Bad(rule, key, c.ipos(st.Instr), "the peer address is changed outside the return-routability response handler")
 			continue
 		}
-		hr := findCalls(fn, nameHasSuffix("rrc.Manager).HandleResponse"))
+		key = short(host)
+		follow := followSamePkg(host)
+		var hr []*ssa.Call
+		for _, u := range c.unitFuncs(host) {
+			hr = append(hr, findCalls(u, nameHasSuffix("rrc.Manager).HandleResponse"))...)
+		}
 		if len(hr) != 1 {
 			r.Bad(rule, key, c.ipos(st.Instr), "HandleResponse call missing")
 			continue
 		}
-		ok, why := guardedBy(hr[0], hr[0], st.Instr)
-		r.Check(ok, rule, key+":validated", c.ipos(st.Instr), "address switched only when rrc.HandleResponse accepted the response", "the peer address changes without an accepted path response: "+why)
+		why := passesUnderF(host, nil, hr[0], hr[0], st.Instr, follow)
+		r.Check(why == "", rule, key+":validated", c.ipos(st.Instr), "address switched only when rrc.HandleResponse accepted the response", "the peer address changes without an accepted path response: "+why)
 		// never without negotiation, never for an unprotected record
-		w := (&Walk{Fn: fn, Assume: assumeAll(atomAssume{mLoad(tCom, "RRCNegotiated"), vBool(false)})}).FromEntry()
+		w := (&Walk{Fn: host, Follow: follow, Assume: assumeAll(atomAssume{mLoad(tCom, "RRCNegotiated"), vBool(false)})}).FromEntry()
 		r.Check(!w.Reached[st.Instr], rule, key+":negotiated", c.ipos(st.Instr), "unreachable unless return-routability checking was negotiated", "the peer address can change although return-routability checking was not negotiated")
-		w2 := (&Walk{Fn: fn, Assume: assumeAll(atomAssume{mLoad("pkg/protocol/recordlayer.Header", "Epoch"), vInt(0)})}).FromEntry()
+		w2 := (&Walk{Fn: host, Follow: follow, Assume: assumeAll(atomAssume{mLoad("pkg/protocol/recordlayer.Header", "Epoch"), vInt(0)})}).FromEntry()
 		r.Check(!w2.Reached[st.Instr], rule, key+":protected", c.ipos(st.Instr), "unreachable for an epoch-0 record", "an unprotected return-routability record can change the peer address")
 		// the new address is the record's source, the cookie the record's
-		r.Check(sameValue(st.Val, fn.Params[len(fn.Params)-1]), rule, key+":value", c.ipos(st.Instr), "new address = source of the response", "the address stored is not the source address of the validated response")
+		src := ssa.Value(host.Params[len(host.Params)-1])
+		var upTo func(v ssa.Value, d int) []ssa.Value
+		upTo = func(v ssa.Value, d int) []ssa.Value {
+			var out []ssa.Value
+			for _, l := range c.Origins(v, 0) {
+				p, isP := l.(*ssa.Parameter)
+				if !isP || p.Parent() == host || d > 2 {
+					out = append(out, l)
+					continue
+				}
+				sites, closed := c.staticCallers(p.Parent())
+				pi := paramIndex(p)
+				if !closed || len(sites) == 0 || pi < 0 {
+					out = append(out, l)
+					continue
+				}
+				for _, cs := range sites {
+					if args := cs.Call.Common().Args; pi < len(args) {
+						out = append(out, upTo(args[pi], d+1)...)
+					}
+				}
+			}
+			return out
+		}
+		r.Check(sameValue(st.Val, src) || allLeaves(upTo(st.Val, 0), func(l ssa.Value) bool { return l == src || sameValue(l, src) }), rule, key+":value", c.ipos(st.Instr), "new address = source of the response", "the address stored is not the source address of the validated response")
 		lf := c.lockFactsOf(fn)
 		r.Check(lf.before[st.Instr]["dtls.Conn.lock"] == 2, rule, key+":locked", c.ipos(st.Instr), "stored under Conn.lock", "rAddr written without Conn.lock")
 	}
